@@ -72,6 +72,19 @@ CHECK_TEXT["C14"] = {
     "technique": "contract-based deductive verification (Verus, bit-vector lemmas) for totality and lossless conversions; bounded evaluation of a generated type universe for distinctness",
 }
 
+CHECK_TEXT["C13"] = {
+    "text": ("Proof of framing for the ordered impls, on the real function bodies (extracted every run): stable_hash appends exactly bytes(v) to the hasher; "
+             "bytes(v) is a function of the value's view only (so capacity, ownership, sharing cannot matter) with an 8-byte length prefix for sequences and strings, "
+             "the discriminant first for Option/Result/derived enums, fields in declaration order; and bytes is prefix-free (hence injective) for every constructor and "
+             "every instantiation, by modularity (Verus). Integer / bool / char / float images incl. NaN normalisation are established on the full domain (Kani). "
+             "Derive output is verified on fixtures expanded by the real proc-macro. Unordered collections, cross-process stability and round-trip preservation are "
+             "covered by a bounded run only."),
+    "design_ref": "DESIGN.md section 5 (C13)",
+    "note": ("ASSUMED: SipHash is a function of its byte stream, no 128-bit collisions, Discriminant layout, to_le_bytes injective (Kani checks the exact bytes). "
+             "NOT under contract: the unordered collections (dyn sub_hash), BTree*/VecDeque/LinkedList, Cow, paths, atomics -- bounded run only."),
+    "technique": "contract-based deductive verification: Verus (Z3) on mechanically extracted impls + Kani full-domain harnesses; bounded run for unordered collections",
+}
+
 NOT_APPLICABLE = {
     "C01": "whole-history property of an async, concurrent engine; no sequential function's contract implies it and neither Verus nor Kani ingests async/tokio/scc code (DESIGN 1, 5)",
     "C02": "quantifies over schedules / single-flight / termination: concurrency and liveness are outside both verifiers (Kani has no threads; Verus would need the code rewritten onto its permission types)",
@@ -87,5 +100,4 @@ NOT_APPLICABLE = {
 # claimed in DESIGN.md but the check is not built yet (kept out of `checks` until it runs green)
 PENDING = {
     "C09": "check under construction (DESIGN 5: staging-replay kernel); not claimed until it runs",
-    "C13": "check under construction (DESIGN 5: hash framing); not claimed until it runs",
 }
